@@ -2,6 +2,7 @@
 import ast
 
 from .. import model, paths, specs, interp, rules_ledger as L
+from ..values import AV as AV_
 from .common import decided_split, pre, S_RULES, sweep
 from ..poly import Poly
 
@@ -31,7 +32,7 @@ def check(an, rep, tier):
     rep.assumptions = pre('PRE-TT', 'PRE-D', 'PRE-DOC')
     rep.trusted = ['NumPy model (kron: second operand fastest; reshape '
                    'orders)']
-    ds = (2, 3) if tier == 'quick' else (2, 3, 4)
+    ds = (2, 3) if tier == 'quick' else (2, 3, 4, 5)
     wh = {'optima.optima_tt_beam', 'optima.optima_tt_max', 'optima.optima_tt',
           'optima.optima_qtt', 'optima_func.optima_func_tt_beam',
           'optima_func._step_top_k',
@@ -49,74 +50,54 @@ def check(an, rep, tier):
                 rv.dims[-1].as_int() == r.d and rv.dt == 'i'
             rep.add('S-ret', r.qualname, 'index of width d for %s' % r.tag(),
                     'ok' if ok else 'violation', '' if ok else repr(rv))
-    # --- O-pivot
+    # --- O-pivot, on the typestates of the abstract run (no names, no
+    # statement shapes): in each direction the orthogonalisation pivot is the
+    # core the sweep starts from (0 for left-to-right, d-1 otherwise) and every
+    # core contracted in the sweep is orthonormal on the side that faces away
+    # from the pivot (rows for left-to-right, columns for right-to-left).
     fn = prog.func('optima.optima_tt_beam')
     mod = fn.module
     from .. import roles, rules_formula as F_
-    piv = first = loop = None
-    zname = roles.unpacked_from_call(prog, fn, 'orthogonalize', 0)
     dir_par = 'l2r'                                  # documented parameter
-    D_ = 5
-    env_ = {'len(%s)' % fn.params[0]: D_}
-    for node in ast.walk(fn.node):
-        if isinstance(node, ast.Assign) and \
-                isinstance(node.targets[0], ast.Name) and \
-                isinstance(node.value, ast.Call) and \
-                isinstance(node.value.func, ast.Name) and \
-                node.value.func.id == 'len' and node.value.args and \
-                isinstance(node.value.args[0], ast.Name) and \
-                node.value.args[0].id == fn.params[0]:
-            env_[node.targets[0].id] = D_
-    for node in ast.walk(fn.node):
-        if isinstance(node, ast.Call) and \
-                (prog.dotted(node.func) or '').endswith('orthogonalize'):
-            piv = roles.arg(prog, mod, node, 'k', 1)
-        if isinstance(node, ast.Assign) and \
-                isinstance(node.value, ast.Subscript) and \
-                isinstance(node.value.value, ast.Name) and \
-                node.value.value.id == zname and \
-                isinstance(node.value.slice, ast.IfExp) and first is None:
-            first = node.value.slice
-        if isinstance(node, ast.For) and isinstance(node.iter, ast.IfExp):
-            loop = node.iter
-
-    def arms(n):
-        """(value when l2r, value otherwise) of an IfExp on the direction
-        flag, in either arm order."""
-        if not isinstance(n, ast.IfExp):
-            return None
-        t, flip = n.test, False
-        while isinstance(t, ast.UnaryOp) and isinstance(t.op, ast.Not):
-            t, flip = t.operand, not flip
-        if not (isinstance(t, ast.Name) and t.id == dir_par):
-            return None
-        return (n.orelse, n.body) if flip else (n.body, n.orelse)
-
-    def fold2(n):
-        ab = arms(n)
-        return None if ab is None else tuple(F_._eval_int(x, env_)
-                                             for x in ab)
-
-    def same_as(node, text):
-        try:
-            return ast.dump(node) == ast.dump(
-                ast.parse(text, mode='eval').body)
-        except SyntaxError:
-            return False
-    p, f = fold2(piv), fold2(first)
-    la = arms(loop)
-    lp = la is not None and zname is not None and \
-        same_as(la[0], '%s[1:]' % zname) and \
-        same_as(la[1], '%s[:-1][::-1]' % zname)
-    ok = p == (0, D_ - 1) and f in ((0, -1), (0, D_ - 1)) and lp
-    rep.add('O-pivot', 'optima.optima_tt_beam',
-            'pivot %s / first core %s (folded at d=%d) / sweep over the '
-            'remaining cores in sweep order: %s' % (p, f, D_, lp),
-            'ok' if ok else 'violation',
-            '' if ok else 'in each direction the pivot of the '
-            'orthogonalisation, the first core and the remaining sweep must '
-            'match (l2r: 0, Z[0], Z[1:]; r2l: d-1, Z[-1], reversed Z[:-1])',
-            line=fn.node.lineno, file=mod.path)
+    for r in runs:
+        if r.qualname != 'optima.optima_tt_beam':
+            continue
+        l2r = r.variant.get('l2r', ('lit', True)) != ('lit', False)
+        want_piv = 0 if l2r else r.d - 1
+        want_o = 'rows3' if l2r else 'cols3'
+        pivs = [a_.get('k') for (q_, a_, _) in r.I.call_log
+                if q_ == 'transformation.orthogonalize']
+        for pv in pivs:
+            c_ = pv.c if pv is not None and pv.has_const() else None
+            st_ = 'unknown' if c_ is None else (
+                'ok' if c_ == want_piv else 'violation')
+            rep.add('O-pivot', 'optima.optima_tt_beam', 'pivot of the '
+                    'orthogonalisation for %s' % r.tag(), st_,
+                    '' if st_ == 'ok' else 'the tensor is orthogonalised to '
+                    'core %s while the %s sweep starts from core %d: the '
+                    'pivot, the first core and the sweep must match'
+                    % (c_, 'left-to-right' if l2r else 'right-to-left',
+                       want_piv), line=fn.node.lineno, file=mod.path)
+        for s_ in r.I.sites:
+            if s_.rule != 'O-contract' or \
+                    not s_.where.startswith('optima.'):
+                continue
+            cores = [o for o, nd in zip(s_.facts['orth'], s_.facts['ndim'])
+                     if nd == 3]
+            if len(cores) != 1:
+                continue
+            o = cores[0]
+            st_ = 'ok' if o == want_o else (
+                'violation' if o in ('cols3', 'rows3', 'weighted3', 'half3')
+                else 'unknown')
+            rep.add('O-pivot', 'optima.optima_tt_beam', 'core contracted in '
+                    'the sweep (%s, line %d)' % (r.tag(), s_.node.lineno), st_,
+                    '' if st_ == 'ok' else 'the swept core has typestate %s, '
+                    'the %s sweep needs %s: the candidate norms are the norms '
+                    'of the partial tensors only when the cores still to come '
+                    'are orthonormal' % (o, 'left-to-right' if l2r else
+                                         'right-to-left', want_o),
+                    line=s_.node.lineno, file=mod.path)
     # --- P-normalise: squares are taken of Q scaled by its largest modulus
     okn = False
     qmax_names = set()
@@ -169,7 +150,7 @@ def check(an, rep, tier):
                     isinstance(y, ast.Name) and y.id in sel_names
                     for y in ast.walk(x.slice)) for x in ast.walk(n_.value)):
             n_sel += 1
-            gs_ = paths.guard_atoms(paths.guards_of(fn.node, n_))
+            gs_ = paths.guard_atoms(paths.step_guards(fn.node, n_))
             extra = [paths.src(mod, t) for t, pol in gs_
                      if not (isinstance(t, ast.Name) and t.id == dir_par)]
             rep.add('P-select', 'optima.optima_tt_beam',
@@ -182,24 +163,21 @@ def check(an, rep, tier):
                     'optimum' % extra, line=n_.lineno, file=mod.path)
     # --- ledger: the running matrix is the array that is re-scaled in place
     # by 2**p0 (found from that statement, whatever it is called)
-    qname = None
-    for node in ast.walk(fn.node):
-        if isinstance(node, ast.AugAssign) and \
-                isinstance(node.op, ast.Mult) and \
-                isinstance(node.target, ast.Name) and \
-                isinstance(node.value, ast.BinOp) and \
-                isinstance(node.value.op, ast.Pow) and \
-                isinstance(node.value.left, ast.Constant) and \
-                node.value.left.value == 2:
-            qname = node.target.id
     for d in ds:
         for vi in (0, 1):
             got = []
 
             def hook(I, fn_, outs, got=got):
+                # the running candidate matrix: the 2-d float array(s) that
+                # carry an exponent ledger when the function returns
                 for o in outs:
-                    if o.kind == 'ret' and qname in o.env:
-                        got.append(o.env[qname])
+                    if o.kind != 'ret':
+                        continue
+                    for nm_, v_ in o.env.items():
+                        if isinstance(v_, AV_) and v_.k == 'arr' and \
+                                v_.dims is not None and len(v_.dims) == 2 \
+                                and v_.dt != 'i' and v_.lg is not None:
+                            got.append(v_)
             I = interp.Interp(prog, {'split': dict(specs.DEFAULT_SPLIT),
                                      'summary': dict(specs.DEFAULT_SUMMARY)})
             I.trace_hooks['optima.optima_tt_beam'] = hook
@@ -383,4 +361,5 @@ def check(an, rep, tier):
                            first=_RF.Rat(_P.sym('@sqrt(0.5)')))
     rep.floor('F-basis', 4, 'normalised Chebyshev basis of the functional variant')
     rep.floor('P-select', 2, 'candidate ordering')
+    rep.floor('O-pivot', 8, 'pivot typestates')
     rep.floor('S-einsum', 2, 'beam contractions')
